@@ -26,6 +26,10 @@ def import_xfab():
     src = os.path.realpath(xfab_src())
     if sys.path[0] != src:
         sys.path.insert(0, src)
+    # locks the code under test creates must be cooperative (see xsim.sched); module-level locks are created at
+    # import, so the seam goes in first
+    from . import sched
+    sched.install_lock_seam(os.path.join(src, "xfab") + os.sep)
     import xfab  # noqa
     got = os.path.realpath(os.path.dirname(os.path.dirname(xfab.__file__)))
     if got != src:
